@@ -50,9 +50,12 @@ PROPS = {
         "assumptions": ["str::split / Array::iter().nth / Object::get wrappers (trusted specs)", "index text parsing (strip_suffix + parse::<usize>) uninterpreted", "sync-feature copy of find is textually identical (diffed by the check)", "Nested-over-array arm is a hole"],
     },
     "C01": {
-        "units": {"optimiser": ["coalesce", "lemma_congruences", "lemma_nested_congruence", "lemma_nested_array_congruence", "lemma_match_coalesce"]},
-        "explanation": "coalesce is proved to preserve sem3 for every document (three-valued equality, so also under negation), to remove every identifier (so clearing the identifier table is sound) and never to hit its expect()",
-        "assumptions": ["shake, rewrite and matrix passes are not yet under contract (see DESIGN.md C01)"],
+        "units": {"optimiser": ["coalesce", "shake_0", "lemma_congruences", "lemma_nested_congruence", "lemma_nested_array_congruence", "lemma_match_coalesce",
+                                 "lemma_congruences_all", "lemma_same_refl", "lemma_same_trans", "lemma_group_equiv", "lemma_group_single", "lemma_merge", "lemma_be_congr", "lemma_three",
+                                 "lemma_sems_concat", "lemma_sems_defined", "lemma_has_ident_elem", "lemma_and3_concat", "lemma_or3_concat", "lemma_single", "lemma_and3_3", "lemma_or3_3"]},
+        "explanation": "coalesce is proved to preserve sem3 for every document (three-valued equality, so also under negation), to remove every identifier (so clearing the identifier table is sound) and never to hit its expect(); shake_0 (and/or flattening, group-of-one unwrapping) is proved to preserve sem3 for every identifier table and document, arm by arm, through flattening lemmas over and3/or3",
+        "assumptions": ["shake_0: termination not proved; Match arm and Nested-over-block arm are holes; double negation removal is known finding C01-KF1",
+                        "shake_1, rewrite and matrix passes are not under contract (HashMap iteration, sort_by closures, automaton/regex builders: outside Verus)"],
     },
     "C09": {
         "units": {"solver": ["solve_expression"]},
@@ -80,7 +83,7 @@ PROPS = {
         "assumptions": ["slow_aho's HashSet branch (>= 64 needles) is a hole", "the parser-side construction of the wrappers (parse_mapping) is not under contract", "Matrix forms of all()/of() are holes"],
     },
     "C16": {
-        "units": {"solver": ["solve_expression", "match_all", "match_of", "solve", "Cache::find", "Passthrough::find"]},
+        "units": {"solver": ["solve_expression", "match_all", "match_of", "solve", "Cache::find", "Passthrough::find"], "paths": ["ObjectV::find", "ObjectVS::find"]},
         "explanation": "Document::find carries the precondition dm_permits(self.model(), key); solve/solve_expression/match_all/match_of require permitted(e, ids, doc) = every key in asks(e, ids) (the field names written in the rule; for a nested block only the block's own key) is permitted, and every find call site in them is a discharged obligation: the key passed is one the rule writes. The private Cache document only permits one-character column keys below its width.",
         "assumptions": ["Matrix arms are holes, so 'synthetic keys never reach the user's document' is assumed there", "invariance under unaddressed fields needs the frame lemma over sem3 (not yet proved)"],
     },
